@@ -1,7 +1,7 @@
 """C17 — point cloud -> spanning tree (swcgeom/transforms/mst.py): sidecar contracts (no edit of /repo).
 
-Carriers: PointsToCuntzMST.__call__ (the Prim-style loop over a masked cost matrix), PointsToCuntzMST.__init__,
-PointsToMST.__init__.  Library models of this property live in pyvc/ext_C17.py.
+Carriers: PointsToCuntzMST.__call__ (the Prim-style loop over a masked cost matrix and the construction of the returned tree),
+PointsToCuntzMST.__init__, PointsToMST.__init__, Tree.from_data_frame.  Library models of this property live in pyvc/ext_C17.py.
 
 What is proved for __call__ (n symbolic, dis = abstract Euclidean distance matrix, K = self.furcations,
 bf = self.bf, all symbolic):
@@ -21,8 +21,14 @@ bf = self.bf, all symbolic):
   * frame: `self` and the input point cloud are not written.
 Ghost state (ghost code only, never assumed): g_perm / g_pos attachment order and its inverse, g_crank / g_kid rank
 of a node among its siblings and its inverse, g_depth.  Updated at the annotation point after `(i, j) = ...`.
-The tail of the function (Tree.from_data_frame, sort_tree) is cut off by ASSUMED contracts local to this carrier
-(an overlay registry, so no other carrier's call sites change); pd.DataFrame.from_dict is a library model.
+The tail of the function is REAL: the DataFrame built from the loop's arrays (pd.DataFrame.from_dict is a library model), Tree.from_data_frame
+through the contract verified on the real function below (used modularly, private overlay), sort_tree / _sort_tree / DictSWC.copy inlined,
+sort_nodes_impl through the contract proved under C05 (DEPENDS), whose ghost symbols are defined for the loop's table at the call.  The
+`returned-tree/...` postconditions speak about the RETURNED tree: a one-to-one map sg between its rows and the input rows (C05's index
+array when sort is on, the identity otherwise), positions / radius / types through sg, the single root = input row 0, parent ids = the
+greedy attachments read through sg, the branching cap on the returned parent column, ids 0..n-1 and parents first when sorted.
+FINDING (open): with column names other than the default ones and sort=True, _sort_tree stores the new numbering under "id" / "pid" instead
+of the given names; the three clauses marked FINDING below are not provable for that variant (see the comments there).
 MST optimality (Prim => minimum total length) is NOT proved here (bounded stand-in only).
 """
 import z3
@@ -562,7 +568,7 @@ def register(R: Registry):
             hints={"safety/argmin-some-unmasked-entry": argmin_hint, "loop0/preserved/every-attachment-so-far-was-greedy": greedy_hint},
         ),
         notes="n symbolic; dis abstract (edist >= 0, symmetric, zero diagonal); bf, K, exclude_soma, sort symbolic; names=None, and one concrete non-default SWCNames for the deprecated keyword. "
-              "Tail (Tree.from_data_frame, sort_tree) cut by assumed contracts local to this carrier; K = 0 and K < -1 excluded by precondition.",
+              "Tail real: Tree.from_data_frame by its verified contract, sort_tree inlined over C05's contract of sort_nodes_impl; K = 0 and K < -1 excluded by precondition.",
     )
 
 
